@@ -177,6 +177,12 @@ def canon_value(obj, depth=0):
             if val is None or val == [] or val == '':
                 continue
             res[name] = canon_value(val, depth + 1)
+        for name in _schema_attr_names(obj):
+            # attributes the bundled schema gives this type and the class has, whether or not the class lists them in `_props`
+            if name not in res:
+                val = getattr(obj, name, None)
+                if not (val is None or val == [] or val == ''):
+                    res[name] = canon_value(val, depth + 1)
         return res
     if hasattr(obj, 'tag') and hasattr(obj, 'attrib'):  # etree node (extension content)
         return _canon_etree(obj)
@@ -185,6 +191,29 @@ def canon_value(obj, depth=0):
     if hasattr(obj, 'text') and hasattr(obj, 'namespace'):  # QName
         return str(obj)
     return repr(obj)
+
+
+_XSD_TABLE = None
+_XSD_ATTRS = {}
+
+
+def _schema_attr_names(obj):
+    nodetype = getattr(obj, 'NODETYPE', None)
+    if nodetype is None or not hasattr(nodetype, 'localname'):
+        return ()
+    key = (type(obj), str(nodetype))
+    if key not in _XSD_ATTRS:
+        global _XSD_TABLE
+        try:
+            if _XSD_TABLE is None:
+                import xsdtable
+                _XSD_TABLE = xsdtable.XsdTable()
+            tname = f'{{{nodetype.namespace}}}{nodetype.localname}'
+            names = [a[0] for a in _XSD_TABLE.flatten(tname)[1]] if tname in _XSD_TABLE.types else []
+        except Exception:  # noqa: BLE001
+            names = []
+        _XSD_ATTRS[key] = tuple(n for n in names if hasattr(type(obj), n))
+    return _XSD_ATTRS[key]
 
 
 def _canon_etree(node):
